@@ -411,6 +411,8 @@ def check_checker_flow(ctx):
         t = m.resolve_call(fs, c)
         if t.kind == "class" and t.target.name == "_JaxtypingLoader":
             kw = {k.arg: norm(k.value) for k in c.keywords}
+            if "typechecker" not in kw:
+                raise AnalysisError(f"C11.4: `{short(c, 70)}` hands the loader no `typechecker` keyword; how the finder's checker reaches the loader was not followed")
             if kw.get("typechecker") != f"{fs.params[0]}._typechecker":
                 ctx.bad("C11.4", fs, c, f"the loader is given `{kw.get('typechecker')}` as its checker, not the finder's own (self._typechecker)")
             else:
@@ -418,6 +420,8 @@ def check_checker_flow(ctx):
     ld = m.cls("_import_hook._JaxtypingLoader")
     linit = ld.methods["__init__"]
     stores = {norm(t): norm(st.value) for st in walk_scope(linit.node) if isinstance(st, ast.Assign) for t in st.targets}
+    if "typechecker" not in linit.params:
+        raise AnalysisError("C11.4: the loader's __init__ has no `typechecker` parameter; how it keeps its checker was not followed")
     if stores.get(f"{linit.params[0]}._typechecker") != "typechecker":
         ctx.bad("C11.4", linit, linit.node, "the loader does not keep the checker it was given", construct="loader: self._typechecker = typechecker")
     else:
@@ -453,21 +457,48 @@ def check_front_ends(ctx):
     m = ctx.model
     pc = m.func("_pytest_plugin.pytest_configure")
     ctx.saw(pc)
-    star = [st for st in walk_scope(pc.node) if isinstance(st, ast.Assign) and isinstance(st.targets[0], ast.Tuple)
-            and any(isinstance(e, ast.Starred) for e in st.targets[0].elts)]
-    ok = False
-    if len(star) == 1:
-        elts = star[0].targets[0].elts
-        if len(elts) == 2 and isinstance(elts[0], ast.Starred) and isinstance(elts[1], ast.Name):
-            pk, tcn = elts[0].value.id, elts[1].id
-            calls = [c for c in m.calls_in(pc) if m.resolve_call(pc, c).kind == "func" and m.resolve_call(pc, c).target.name == "install_import_hook"]
-            if len(calls) == 1 and [norm(a) for a in calls[0].args] == [pk, tcn]:
-                ok = True
-    if ok:
-        ctx.ok("C11.5", pc.qualname, "pytest option: `*packages, typechecker = ...`; install_import_hook(packages, typechecker)")
+    # the split of the option: (all but the last element -> packages, the last -> typechecker), in any of its spellings
+    splits = []  # (packages expr text, typechecker name, statement, which end the checker is taken from)
+    for st in walk_scope(pc.node):
+        if not isinstance(st, ast.Assign) or len(st.targets) != 1:
+            continue
+        tg, v = st.targets[0], st.value
+        if isinstance(tg, ast.Tuple) and any(isinstance(e, ast.Starred) for e in tg.elts):
+            if len(tg.elts) == 2 and isinstance(tg.elts[0], ast.Starred) and isinstance(tg.elts[0].value, ast.Name) and isinstance(tg.elts[1], ast.Name):
+                splits.append((tg.elts[0].value.id, tg.elts[1].id, st, "last"))
+            elif len(tg.elts) == 2 and isinstance(tg.elts[1], ast.Starred) and isinstance(tg.elts[1].value, ast.Name) and isinstance(tg.elts[0], ast.Name):
+                splits.append((tg.elts[1].value.id, tg.elts[0].id, st, "first"))
+            else:
+                raise AnalysisError(f"C11.5: the starred unpacking `{short(st, 60)}` of the pytest option has a form the rule does not read")
+        elif isinstance(tg, ast.Name) and isinstance(v, ast.Call) and isinstance(v.func, ast.Attribute) and v.func.attr == "pop" and isinstance(v.func.value, ast.Name) and not v.keywords:
+            # `typechecker = packages.pop()`: the list keeps all but the last
+            if not v.args or (isinstance(v.args[0], ast.UnaryOp) and isinstance(v.args[0].op, ast.USub) and isinstance(v.args[0].operand, ast.Constant) and v.args[0].operand.value == 1):
+                splits.append((v.func.value.id, tg.id, st, "last"))
+            elif isinstance(v.args[0], ast.Constant) and v.args[0].value == 0:
+                splits.append((v.func.value.id, tg.id, st, "first"))
+    calls = [c for c in m.calls_in(pc) if m.resolve_call(pc, c).kind == "func" and m.resolve_call(pc, c).target.name == "install_import_hook"]
+    if len(splits) != 1 or len(calls) != 1:
+        if any(isinstance(n_, ast.Subscript) and isinstance(n_.slice, (ast.Slice, ast.UnaryOp)) for n_ in walk_scope(pc.node)):
+            raise AnalysisError("C11.5: the pytest option is split by indexing / slicing, a form the rule does not read")
+        if not splits and calls:
+            ctx.bad("C11.5", pc, pc.node, "the pytest option is not split into (all but last -> packages, last -> typechecker) and passed to install_import_hook in that order",
+                    construct="pytest_configure wiring")
+        else:
+            raise AnalysisError(f"C11.5: expected one split of the pytest option and one install_import_hook call, found {len(splits)} and {len(calls)}")
     else:
-        ctx.bad("C11.5", pc, pc.node, "the pytest option is not split into (all but last -> packages, last -> typechecker) and passed to install_import_hook in that order",
-                construct="pytest_configure wiring")
+        pk, tcn, st_, end = splits[0]
+        c = calls[0]
+        bound = {}
+        for nm_, a_ in zip(("modules", "typechecker"), c.args):
+            bound[nm_] = norm(a_)
+        for k in c.keywords:
+            if k.arg:
+                bound[k.arg] = norm(k.value)
+        if end == "last" and bound.get("modules") == pk and bound.get("typechecker") == tcn:
+            ctx.ok("C11.5", pc.qualname, f"pytest option: `{short(st_, 50)}`; install_import_hook({pk}, {tcn})")
+        else:
+            ctx.bad("C11.5", pc, st_ if end != "last" else c, "the pytest option is not split into (all but last -> packages, last -> typechecker) and passed to install_import_hook in that order",
+                    construct="pytest_configure wiring")
     magic = None
     for q, f in m.functions.items():
         if q.startswith("_ipython_extension") and f.name == "typechecker":
